@@ -646,14 +646,15 @@ def _raw_mul(a, b):
 # functions
 # --------------------------------------------------------------------------
 
-POSITIVE_SCALARS = None  # None = every 's' atom is assumed positive (L, dt>0 ... used only by sqrt/abs)
-SIGNED = set()  # names of 's' atoms that may be negative (velocities, coefficients ...)
+# names of 's' atoms assumed strictly positive (used only by sqrt / abs / definiteness); every other
+# scalar parameter (velocities, coefficients, scales ...) may have either sign
+POSITIVE = {"L", "dt", "N", "M", "r", "pi", "Nold", "Nnew", "n"}
 
 
 def _atom_nonneg(a):
     t = a[0]
     if t == "s":
-        return a[1] not in SIGNED
+        return a[1] in POSITIVE
     if t == "num":
         return True
     if t in ("k", "k1"):
